@@ -155,13 +155,12 @@ static std::vector<std::string> auxFor(Opcode::Opcode op, const Interval& A, con
             if (pos == 2) usedA *= -1;
             auto absB = boost::numeric::abs(bi);
             auto q = usedA / absB;
+            // std::floor of the quotient bounds and the refined candidate `a.i - b.i * floor(q.lo)`
             float fl = std::floor(q.lower()), fu = std::floor(q.upper());
-            int qi = static_cast<int>(fl), qu = static_cast<int>(fu);
-            BI alt = ai - bi * float(qi);
+            BI alt = ai - bi * fl;
             aux.push_back(hex(q.lower())); aux.push_back(hex(q.upper()));
-            aux.push_back(hex(float(qi))); aux.push_back(hex(float(qu)));
+            aux.push_back(hex(fl)); aux.push_back(hex(fu));
             aux.push_back(hex(alt.lower())); aux.push_back(hex(alt.upper()));
-            aux.push_back(qi == qu ? "1" : "0");
         }
     }
     return aux;
